@@ -173,6 +173,10 @@ static sqfs_s32 lzma_uncomp_block(sqfs_compressor_t *base, const sqfs_u8 *in,
 			return 0;
 	}
 
+	/* the stream ended before it produced what the header promised */
+	if (strm.total_out < hdrsize)
+		return SQFS_ERROR_CORRUPTED;
+
 	return hdrsize;
 }
 
